@@ -59,11 +59,54 @@ pub fn install_panic_hook() {
 // ---------------------------------------------------------------------------------------------
 // Messages (five reply types)
 // ---------------------------------------------------------------------------------------------
-pub struct MU(pub Body);
-pub struct MS(pub Body);
-pub struct MN(pub Body);
-pub struct MR(pub Body);
-pub struct MJ(pub Body);
+/// Rides along with every scripted message: if the message is destroyed without its handler having been entered (dropped
+/// with the mailbox, by a drain, by a failed send), the scenario's log gets a note. The instant at which a queued envelope
+/// is destroyed is otherwise invisible from outside - and it is the instant at which a queued ask has failed.
+pub struct Witness {
+    uid: u64,
+    handled: std::sync::atomic::AtomicBool,
+}
+impl Witness {
+    fn new(uid: u64) -> Witness {
+        Witness { uid, handled: std::sync::atomic::AtomicBool::new(false) }
+    }
+    pub fn handled(&self) {
+        self.handled.store(true, Ordering::Relaxed);
+    }
+}
+impl Drop for Witness {
+    fn drop(&mut self) {
+        if !self.handled.load(Ordering::Relaxed) {
+            let uid = self.uid;
+            let _ = CUR_LOG.try_with(|c| {
+                if let Ok(g) = c.try_borrow() {
+                    if let Some(l) = g.as_ref() {
+                        l.push(K::Note(format!("destroyed-unhandled uid {uid}")));
+                    }
+                }
+            });
+        }
+    }
+}
+macro_rules! scripted_message {
+    ($n:ident) => {
+        pub struct $n {
+            pub b: Body,
+            pub w: Witness,
+        }
+        /// same spelling as the tuple-struct constructor it replaces
+        #[allow(non_snake_case)]
+        pub fn $n(b: Body) -> $n {
+            let w = Witness::new(b.uid);
+            $n { b, w }
+        }
+    };
+}
+scripted_message!(MU);
+scripted_message!(MS);
+scripted_message!(MN);
+scripted_message!(MR);
+scripted_message!(MJ);
 
 pub fn reply_s(base: u64) -> String {
     format!("s{base}")
@@ -1294,8 +1337,9 @@ impl SA {
 impl Message<MU> for SA {
     type Reply = u64;
     async fn handle(&mut self, m: MU, r: &ActorRef<Self>) -> u64 {
-        let uid = m.0.uid;
-        let (base, t0) = self.handle_body(m.0, r).await;
+        m.w.handled();
+        let uid = m.b.uid;
+        let (base, t0) = self.handle_body(m.b, r).await;
         self.exit(uid, Rep::U(base), t0);
         base
     }
@@ -1314,8 +1358,9 @@ impl Message<MU> for SA {
 impl Message<MS> for SA {
     type Reply = String;
     async fn handle(&mut self, m: MS, r: &ActorRef<Self>) -> String {
-        let uid = m.0.uid;
-        let (base, t0) = self.handle_body(m.0, r).await;
+        m.w.handled();
+        let uid = m.b.uid;
+        let (base, t0) = self.handle_body(m.b, r).await;
         let v = reply_s(base);
         self.exit(uid, Rep::S(v.clone()), t0);
         v
@@ -1330,16 +1375,17 @@ impl Message<MN> for SA {
     // (timed) work synchronously before it returns that future. That work is part of handling the message.
     #[allow(clippy::manual_async_fn)]
     fn handle(&mut self, m: MN, r: &ActorRef<Self>) -> impl Future<Output = ()> + Send {
+        m.w.handled();
         let pre = std::time::Instant::now();
-        let eager = m.0.flags & F_EAGER != 0;
+        let eager = m.b.flags & F_EAGER != 0;
         if eager {
             while pre.elapsed() < Duration::from_micros(1500) {
                 std::hint::spin_loop();
             }
         }
         async move {
-            let uid = m.0.uid;
-            let (_, t0) = self.handle_body(m.0, r).await;
+            let uid = m.b.uid;
+            let (_, t0) = self.handle_body(m.b, r).await;
             self.exit(uid, Rep::Unit, t0);
             if eager {
                 // measured from the call of handle(): the metrics must cover the synchronous part as well
@@ -1354,8 +1400,9 @@ impl Message<MN> for SA {
 impl Message<MR> for SA {
     type Reply = Result<u64, String>;
     async fn handle(&mut self, m: MR, r: &ActorRef<Self>) -> Result<u64, String> {
-        let uid = m.0.uid;
-        let (base, t0) = self.handle_body(m.0, r).await;
+        m.w.handled();
+        let uid = m.b.uid;
+        let (base, t0) = self.handle_body(m.b, r).await;
         let v = reply_r(base);
         self.exit(uid, Rep::R(v.clone()), t0);
         v
@@ -1367,9 +1414,10 @@ impl Message<MR> for SA {
 impl Message<MJ> for SA {
     type Reply = JoinHandle<u64>;
     async fn handle(&mut self, m: MJ, r: &ActorRef<Self>) -> JoinHandle<u64> {
-        let uid = m.0.uid;
-        let flags = m.0.flags;
-        let (base, t0) = self.handle_body(m.0, r).await;
+        m.w.handled();
+        let uid = m.b.uid;
+        let flags = m.b.flags;
+        let (base, t0) = self.handle_body(m.b, r).await;
         let log = self.sh.log.clone();
         let v = reply_j(base);
         let jh = tokio::spawn(async move {
